@@ -445,9 +445,32 @@ def _check_sentinel(case):
     return findings
 
 
+def _check_rrsig_time(case):
+    """The one message of the library that carries 4-byte second timestamps: an RRSIG record.  Every value of the field
+    is an instant (RFC 4034 3.1.5 knows no "forever"); it is parsed to exactly that instant and composed back."""
+    import datetime  # pylint: disable=import-outside-toplevel
+    from cryptoparser.dnsrec.record import DnsRecordRrsig  # pylint: disable=import-outside-toplevel
+    expiration, inception = case['expiration'], case['inception']
+    rdata = (b'\x00\x01\x08\x00' + (3600).to_bytes(4, 'big') + expiration.to_bytes(4, 'big') + inception.to_bytes(4, 'big')
+             + b'\x12\x34' + b'\x00' + b'sig')
+    epoch = datetime.datetime(1970, 1, 1, tzinfo=datetime.timezone.utc)
+    try:
+        record = DnsRecordRrsig.parse_exact_size(rdata)
+        got = [record.signature_expiration, record.signature_inception]
+        want = [epoch + datetime.timedelta(seconds=expiration), epoch + datetime.timedelta(seconds=inception)]
+        if [value.utcoffset() is None for value in got] != [False, False] or got != want:
+            return [Finding('timestamp/rrsig:4-byte', {'expiration': expiration, 'inception': inception, 'parsed': [str(v) for v in got]})]
+        if bytes(record.compose()) != rdata:
+            return [Finding('timestamp/rrsig:4-byte', {'expiration': expiration, 'inception': inception, 'what': 'compose differs'})]
+    except Exception as e:  # pylint: disable=broad-except
+        return [Finding('timestamp/rrsig:4-byte', {'expiration': expiration, 'inception': inception, 'error': repr(e)[:200]})]
+    return []
+
+
 _CHECKERS = {
     'int': _check_int, 'intarr': _check_intarr, 'flags-parse': _check_flags, 'flags-compose': _check_flags,
     'mpint': _check_mpint, 'sshmpint': _check_sshmpint, 'ts': _check_ts, 'sentinel': _check_sentinel,
+    'rrsig-time': _check_rrsig_time,
 }
 
 
@@ -800,6 +823,17 @@ def run(ctx):
     shards = 16
     jobs = [(ctx.derive_seed('mpint', shard), 150 if quick else 6000) for shard in range(shards)]
     stats.merge(pool.run_shards(_shard_mpint, jobs))
+    # 4b. the 4-byte timestamps of an RRSIG record (no sentinel there): boundary instants
+    edges = [0, 1, 2 ** 31 - 1, 2 ** 31, 2 ** 32 - 2, 2 ** 32 - 1, 1340000000]
+    for expiration in edges:
+        for inception in (0, 2 ** 32 - 1, expiration):
+            case = {'kind': 'rrsig-time', 'expiration': expiration, 'inception': inception}
+            stats.evaluated()
+            stats.label('rrsig-time')
+            stats.nontriv(('rrsig-time', expiration, inception))
+            for finding in check_case(case):
+                stats.finding(finding, case)
+    stats.sample('rrsig-time', {'kind': 'rrsig-time', 'expiration': 2 ** 32 - 1, 'inception': 0})
     # 5. timestamps under TZ configurations
     zones = list(QUICK_ZONES)
     if not quick:
